@@ -46,3 +46,22 @@ CASES += [
     {"name": "aggregate asks for a larger operator basis explicitly", "kind": "twin", "edits": [
         ("quantarhei/builders/aggregate_base.py", "        self.ops = operator_factory()", "        self.ops = operator_factory(N=120)", 1)]},
 ]
+
+AB10 = "quantarhei/builders/aggregate_base.py"
+CASES += [
+    {"name": "component index dropped in the accumulation (the repaired defect)", "kind": "mutant", "rule": "C10-E", "edits": [
+        (AB10, "                                            nop._data[i_n,i_m,a] += \\\n", "                                            nop._data[i_n,i_m] += \\\n", 1)]},
+    {"name": "mode added through a method a Molecule does not have (the repaired defect)", "kind": "mutant", "rule": "C10-F", "edits": [
+        (AB10, "            mn.add_Mode(mode)\n", "            mn.add_mode(mode)\n", 1)]},
+    {"name": "mode read through a method a Molecule does not have", "kind": "mutant", "rule": "C10-F", "edits": [
+        (AB10, "            return mn.get_Mode(N)\n", "            return mn.get_mode(N)\n", 1)]},
+]
+
+CASES += [
+    {"name": "dipole element always from the 0->1 transition (the repaired defect)", "kind": "mutant", "rule": "C10-G", "edits": [
+        (AB10, "        eldip = self.get_dipole(exindx, min(n1, n2), max(n1, n2))", "        eldip = self.get_dipole(exindx, 0, 1)", 1)]},
+    {"name": "upper level taken from one state only", "kind": "mutant", "rule": "C10-G", "edits": [
+        (AB10, "        eldip = self.get_dipole(exindx, min(n1, n2), max(n1, n2))", "        eldip = self.get_dipole(exindx, 0, n1)", 1)]},
+    {"name": "levels sorted explicitly", "kind": "twin", "edits": [
+        (AB10, "        eldip = self.get_dipole(exindx, min(n1, n2), max(n1, n2))", "        lo, hi = sorted((n1, n2))\n        eldip = self.get_dipole(exindx, lo, hi)", 1)]},
+]
